@@ -433,7 +433,7 @@ int main(int argc, char** argv)
     if (ck::ThreadCount() != 1) { printf("HARNESS-ERROR process is not single-threaded\n"); return 2; }
 
     // coin sets: four confirmed types | + unconfirmed own change (ancestor unconfirmed) | single coin | everything
-    std::vector<unsigned> masks = big ? std::vector<unsigned>{0x0f, 0x4f, 0x01, 0xff, 0x03, 0x41, 0x0c, 0x2f} : std::vector<unsigned>{0x0f, 0x4f, 0x01, 0x41};
+    std::vector<unsigned> masks = big ? std::vector<unsigned>{0x0f, 0x4f, 0x01, 0xff, 0x03, 0x41, 0x2f} : std::vector<unsigned>{0x0f, 0x4f, 0x01, 0x41};
     std::vector<Orig> origs;
     for (int nrec : {1, 2})
         for (int shape : {0, 1, 2, 3})
@@ -443,6 +443,7 @@ int main(int argc, char** argv)
                     if (!big && nrec == 2 && (shape >= 2 || fr != 1000)) continue;
                     if (!big && fr != 1000 && shape != 0) continue;
                     if (shape == 3 && fr > 2500) continue; // 2000 sat do not pay for 10 sat/vB
+                    if (shape != 3 && fr == 2500) continue;
                     origs.push_back({nrec, shape, rbf, fr});
                 }
     std::vector<std::string> bumps{"auto", "rate:+99", "rate:+100", "rate:x10", "rate:x20", "rate:max", "outputs", "chgidx", "reduce",
